@@ -1,9 +1,9 @@
 SPECIFICATION Spec
 CONSTANTS
   Names <- NamesQuick
-  Sizes = {0, 5, 40}
+  Sizes = {12}
   Extras = {0}
-  MaxEntries = 3
-  Focus = FALSE
+  MaxEntries = 7
+  Focus = TRUE
 INVARIANTS DesignC19 DesignC01 Dump
 CHECK_DEADLOCK FALSE
